@@ -27,6 +27,13 @@ SCRATCH_BASE = "/var/tmp"
 def _prove_one(args):
     name, timeout, repo = args
     os.environ["ESVC_REPO"] = repo
+    flag = os.environ.get("ESVC_TEST_WORKER_DEATH")       # self-test of the pool recovery: the first worker to see the flag file dies
+    if flag and os.path.exists(flag):
+        try:
+            os.remove(flag)
+            os._exit(9)
+        except OSError:
+            pass
     from . import speclang
     from .engine import Engine
     from . import solve
@@ -163,6 +170,31 @@ INTERNAL_KINDS = {"loop-init", "loop-preserve", "loop-variant", "lemma", "call-v
 
 
 # ------------------------------------------------------------------------------------------- main
+def _map_robust(fn, items, workers):
+    """ex.map in a process pool, in input order; when a worker dies (the pool breaks) the items without a result are run again
+    in a fresh pool, twice at most, before giving up"""
+    from concurrent.futures.process import BrokenProcessPool
+    out = [None] * len(items)
+    todo = list(range(len(items)))
+    for attempt in range(3):
+        if not todo:
+            break
+        with cf.ProcessPoolExecutor(max_workers=max(1, min(workers, len(todo)) if attempt == 0 else min(4, len(todo)))) as ex:
+            futs = {i: ex.submit(fn, items[i]) for i in todo}
+            left = []
+            for i, f in futs.items():
+                try:
+                    out[i] = f.result()
+                except BrokenProcessPool:
+                    left.append(i)
+        if left:
+            print("note: a prover worker ended abruptly; %d function(s) are run again" % len(left), flush=True)
+        todo = left
+    if todo:
+        raise RuntimeError("prover workers keep ending abruptly: %r" % [items[i][0] for i in todo])
+    return out
+
+
 def main(argv):
     import argparse
     ap = argparse.ArgumentParser()
@@ -218,19 +250,15 @@ def main(argv):
     locked = set(lock.get(prop, []))
     log = []
     # ---- 1. deductive part
-    results = []
-    with cf.ProcessPoolExecutor(max_workers=min(16, max(1, len(proved_fns)))) as ex:
-        for r in ex.map(_prove_one, [(n, timeout, REPO) for n in proved_fns]):
-            results.append(r)
+    results = _map_robust(_prove_one, [(n, timeout, REPO) for n in proved_fns], min(16, max(1, len(proved_fns))))
     # obligations the solver left open are tried once more, with four times the budget and at most four functions at a time:
     # under a loaded machine the first pass can time out on obligations that discharge in seconds when run alone.
     # Only an `unknown` is ever replaced; proved and refuted verdicts of the first pass stand.
     open_fns = sorted({o["function"] for r in results for o in r["obligations"] if o["result"] == "unknown"})
     retried = {}
     if open_fns:
-        with cf.ProcessPoolExecutor(max_workers=min(4, len(open_fns))) as ex:
-            for r in ex.map(_prove_one, [(n, timeout * 4, REPO) for n in open_fns]):
-                retried[r["info"]["function"]] = r
+        for r in _map_robust(_prove_one, [(n, timeout * 4, REPO) for n in open_fns], min(4, len(open_fns))):
+            retried[r["info"]["function"]] = r
         for r in results:
             r2 = retried.get(r["info"]["function"])
             if r2 is None or r2["info"]["status"] != "ok":
